@@ -323,8 +323,17 @@ def r2_4(ctx, R, counter_field):
                 from lib_flow import all_arrivals_cross
 
                 def empt(lab):
-                    return lab[0] == "bool" and lab[2] is True and lab[1][0] == "call" and lab[1][1] and \
-                        re.search(r"alloc::vec::Vec::<.*>::is_empty$", lab[1][1]) is not None
+                    if lab[0] != "bool":
+                        return False
+                    x = lab[1]
+                    if lab[2] is True and x[0] == "call" and x[1] and re.search(r"alloc::vec::Vec::<.*>::is_empty$", x[1]):
+                        return True
+                    # groups.len() == 0 (possibly read into a local first)
+                    if x[0] == "binop" and ((x[1] == "Eq" and lab[2] is True) or (x[1] == "Ne" and lab[2] is False)):
+                        for l_, r_ in ((x[2], x[3]), (x[3], x[2])):
+                            if r_[0] == "const" and r_[2] == "0" and l_[0] == "call" and re.search(r"alloc::vec::Vec::<.*>::len$", l_[1] or ""):
+                                return True
+                    return False
                 try:
                     ok, na, bad = all_arrivals_cross(b, fl, rb, empt)
                     det = "every one of %d feasible arrivals crosses groups.is_empty()" % na if ok else "arrival without emptiness test: %s" % (bad,)
@@ -564,7 +573,16 @@ def r2_7(ctx, R, counter, head):
                     rng = x
                     break
                 x = x[2][0] if x[2] else ("unknown",)
-            ok_chain = chain[:3] == ["into", "into_boxed_slice", "collect"] and any(c.endswith("::" + free) for c in chain if c.startswith("map-fn="))
+            # conversions of the collected storage (Vec -> Box<[T]> -> Pin<Box<[T]>>, in any spelling), then collect, then the map
+            conv = []
+            for c_ in chain:
+                if c_ in ("into", "into_boxed_slice", "from", "into_pin", "new_unchecked", "pin"):
+                    conv.append(c_)
+                else:
+                    break
+            rest_ = chain[len(conv):]
+            ok_chain = bool(rest_) and rest_[0] == "collect" and len(rest_) >= 3 and rest_[1] == "map" and \
+                rest_[2].startswith("map-fn=") and rest_[2].endswith("::" + free)
             ok_rng = rng is not None and rng[2][0][0] == "const" and rng[2][0][2] == "1" and strip_refs(rng[2][1])[0] == "param"
             h, c = ops.get(head[1:]), ops.get(counter[1:])
             ok_hc = h is not None and c is not None and h[0] == "const" and h[2] == "0" and c[0] == "const" and c[2] == "0"
